@@ -91,6 +91,8 @@ RunResult runPlan(Family* fam, const Plan& plan, bool trace, StatusSlot* slot) {
 	g_alloc.fill = !g_rawMemory;
 	g_alloc.cap = static_cast<size_t>(plan.envu("memcap", 256ull << 20));
 	g_alloc.capHits = 0;
+	g_alloc.failCountdown = 0;
+	g_alloc.injectedFailures = 0;
 	scribbleStack(stackFill);
 	alarm(static_cast<unsigned>(plan.envu("watchdog", 60)));
 
@@ -120,6 +122,8 @@ RunResult runPlan(Family* fam, const Plan& plan, bool trace, StatusSlot* slot) {
 	ctx.counters["fault.eintr"] += g_fault.firedEintr;
 	ctx.counters["fault.readdir_perm"] += g_fault.firedReaddir;
 	ctx.counters["fault.mem_cap"] += g_alloc.capHits;
+	ctx.counters["fault.alloc_fail"] += g_alloc.injectedFailures;
+	g_alloc.failCountdown = 0;
 	ctx.counters["fault.sink_bytes"] += g_fault.sunkBytes;
 	ctx.counters["intercepted_syscalls"] += g_fault.syscalls;
 	ctx.counters["fault.mem_env"] += 1;
